@@ -98,7 +98,25 @@ class Scenarios:
             for t in extra_values:
                 r = refconv.convert(dt, t)
                 convtab[(dt, enc(t))] = {"ok": r is not None, "v": r or ""}
-        parts = ["MCSchemas == " + tlc.tla_value([schemas.for_tla(r) for r in self.recs]),
+        # what str.lower() does to the non-ASCII characters that occur (asked of Python directly: environment)
+        from .chars import ext_tables
+        lower = {}
+        seen = set()
+        for it in self.items:
+            for lines in it["files"].values():
+                for l in lines:
+                    seen.update(str(l))
+            for o in it["opts"]:
+                seen.update(o)
+        for c in sorted(seen):
+            if ord(c) > 126:
+                try:
+                    lo, _ = ext_tables([c])
+                except ValueError:
+                    continue
+                lower.update(lo)
+        parts = ["MCExtLower == " + (tlc.tla_value(lower) if lower else "[c \\in {} |-> c]"),
+                 "MCSchemas == " + tlc.tla_value([schemas.for_tla(r) for r in self.recs]),
                  "KeyTab == " + tlc.tla_value(keytab),
                  "ConvTab == " + tlc.tla_value(convtab),
                  "MCPackages == " + (tlc.tla_value(self.packages) if self.packages else '("~none~" :> [ok |-> FALSE])')]
@@ -107,7 +125,7 @@ class Scenarios:
     OVERRIDES = {"KeyConvOf": "MCKeyConvOf", "ConvOf": "MCConvOf", "SecConvOf": "MCSecConvOf",
                  "ResLines": "MCResLines", "Resolve": "MCResolve", "Package": "MCPackage",
                  "Schemas": "MCSchemas", "ScnSchema": "MCScnSchema", "ScnMain": "MCScnMain", "ScnOpts": "MCScnOpts",
-                 "ScnTwin": "MCScnTwin", "ScnCulprit": "MCScnCulprit", "ExtSpace": "MCExtSpace",
+                 "ScnTwin": "MCScnTwin", "ScnCulprit": "MCScnCulprit", "ExtSpace": "MCExtSpace", "ExtLower": "MCExtLower",
                  "ScnFault": "MCScnFault"}
 
     def run_spec(self, chk, invariants=(), properties=(), workers=6, timeout=3000, extra_values=()):
@@ -271,7 +289,18 @@ def _replay_chunk(idxs):
     try:
         for i in idxs:
             item = sc.items[i]
-            sch = loadgen.real_schema(sc.docs[item["sid"]], sc.recs[item["sid"]])
+            try:
+                sch = loadgen.real_schema(sc.docs[item["sid"]], sc.recs[item["sid"]])
+            except Exception as e:
+                # the schema of the scenario - rule-abiding by construction, and loaded by the unchanged code - is
+                # refused: nothing can be loaded against it, which is a disagreement about every scenario that uses it
+                import ZConfig
+                if not isinstance(e, (ZConfig.ConfigurationError, ValueError, TypeError, AttributeError, KeyError)):
+                    raise
+                bad.append({"clause": "the schema of the scenario is refused", "observed": "%s: %s" % (type(e).__name__, e),
+                            "_reproduced": True, "direction": "G", "class": {"clause": "schema-refused"},
+                            "scenario": {"schema_xml": schemas.to_xml(sc.docs[item["sid"]])}, "spec": outs[i]["o"]})
+                continue
             prec = (sc.proj_recs or sc.recs)[item["sid"]]
             d = fn(ws, sch, prec, item, outs[i])
             if d is not None and not d.get("_count_only"):
@@ -356,7 +385,7 @@ def validate_sessions(chk, sc, sessions, describe, timeout=3000):
         with open(path, "w") as f:
             json.dump(doc, f)
         ov = {k: v for k, v in sc.OVERRIDES.items() if k in ("KeyConvOf", "ConvOf", "SecConvOf", "ResLines", "Resolve",
-                                                             "Package", "ExtSpace")}
+                                                             "Package", "ExtSpace", "ExtLower")}
         cfg = flow.cfg_text(constants={"NSess": len(sessions)}, overrides=ov, invariants=["Verdict"])
 
         def on_value(v):
